@@ -45,6 +45,11 @@ func runC02(c *an.Ctx) {
 	r02v(c)
 	c.As(map[string]string{"R12o": "R02w"}, func() { r12o(c) })
 	c.As(map[string]string{"R04g": "R02x"}, func() { r04g(c) })
+	// round 9
+	r02y(c)
+	r02z(c)
+	c.As(map[string]string{"R12p": "R02A"}, func() { r12p(c) })
+	c.As(map[string]string{"R16c": "R02B", "R16f": "R02C", "R16d": "R02D"}, func() { r16cd(c) })
 }
 
 // transitionDos returns the `do` methods of all implementers of environment.Transition.
